@@ -1,5 +1,6 @@
 import LZ4V.Judge.Frame
 import LZ4V.Spec.FrameLExec
+import LZ4V.Model.Legacy
 /-!
 # Judge for CLI records
 
@@ -38,6 +39,14 @@ def judgeCliArchive (r : Rec) : Verdict := Id.run do
   | .error e => v := { v with fails := ("archive_rejected_by_spec", s!"{repr e}") :: v.fails }
   | .ok (out, kinds) =>
     if out != content then v := { v with fails := ("archive_content_mismatch", s!"decoded {out.size} bytes, content {content.size}") :: v.fails }
+    let mut mtags : List String := []
+    -- `lz4 -l` at a fast level: the archive model (Model/Legacy.lean, proved to decode to the input) must produce the very same bytes
+    if legacy && r.args.size > 8 && r.int 8 < 3 && content.size ≤ 300000 then
+      match LZ4V.Model.Legacy.archive (r.int 8) content.toList with
+      | some a =>
+        if a != archive.toList then v := { v with fails := ("model_legacy_archive_differs", s!"level {r.int 8}, content {content.size} bytes: model archive {a.length} bytes, real {archive.size} bytes") :: v.fails }
+        else mtags := ["legacymodel.same"]
+      | none => v := { v with fails := ("model_legacy_archive_differs", "the model produces no archive") :: v.fails }
     if legacy && !(kinds.all (· == Kind.legacy)) then v := { v with fails := ("archive_not_legacy", s!"{repr kinds}") :: v.fails }
     if !legacy && !(kinds.all (· == Kind.lz4)) then v := { v with fails := ("archive_not_lz4_frames", s!"{repr kinds}") :: v.fails }
     if !legacy && kinds.size == 1 then
@@ -51,7 +60,7 @@ def judgeCliArchive (r : Rec) : Verdict := Id.run do
         if wantCS == 1 && h.contentSize != some content.size then v := { v with fails := ("cli_header_content_size_value", s!"got {h.contentSize}") :: v.fails }
         if wantCC < 2 && h.contentChecksum != (wantCC == 1) then v := { v with fails := ("cli_header_content_checksum", "") :: v.fails }
       | .error _ => pure ()
-    v := { v with tags := [if legacy then "legacy" else "lz4", s!"frames.{kinds.size}", if content.size == 0 then "empty" else if content.size < 65536 then "small" else if content.size < 4194304 then "mid" else "multi_chunk",
+    v := { v with tags := mtags ++ [if legacy then "legacy" else "lz4", s!"frames.{kinds.size}", if content.size == 0 then "empty" else if content.size < 65536 then "small" else if content.size < 4194304 then "mid" else "multi_chunk",
                             if dict.size > 0 then "dict" else "nodict"] }
   return v
 
